@@ -608,6 +608,26 @@ class Discharger:
             for d in self._defs(f, base.id):
                 if isinstance(d, ast.Call) and src(d.func) == "dict" and any(k.arg == key for k in d.keywords):
                     return "key of the dict(...) bound to this local"
+            # named groups of a compiled pattern: d = {k: g(v) for k, v in m.groupdict(...).items()} / m.groupdict(...)
+            for d in self._defs(f, base.id):
+                gd = None
+                if isinstance(d, ast.DictComp) and len(d.generators) == 1 and isinstance(d.generators[0].target, ast.Tuple) and len(d.generators[0].target.elts) == 2 and src(d.key) == src(d.generators[0].target.elts[0]) and not d.generators[0].ifs:
+                    it = d.generators[0].iter
+                    if isinstance(it, ast.Call) and isinstance(it.func, ast.Attribute) and it.func.attr == "items" and isinstance(it.func.value, ast.Call) and isinstance(it.func.value.func, ast.Attribute) and it.func.value.func.attr == "groupdict":
+                        gd = it.func.value
+                elif isinstance(d, ast.Call) and isinstance(d.func, ast.Attribute) and d.func.attr == "groupdict":
+                    gd = d
+                if gd is not None:
+                    from .c01 import compiled_grammar
+
+                    cg = compiled_grammar(self.ctx, f)
+                    if cg is not None and cg[1] is not None and src(gd.func.value) == cg[1]:
+                        try:
+                            names = set(_re.compile(cg[0]).groupindex)
+                        except _re.error:
+                            names = set()
+                        if key in names:
+                            return f"`{base.id}` has one key per named group of the pattern matched into `{cg[1]}` ({key!r} is one of them)"
             if not producers and base.id in f.params:
                 return self._param_key(f, base.id, key)
             # loop variable over a list of dicts produced by a package function
@@ -1189,6 +1209,17 @@ def r20_5(ctx: Ctx, rep: Report, sl: Set[Func]) -> None:
                         pats.setdefault(v, (f, n))
                     elif f.qualname not in ("helpers.findall1", "helpers.findall2", "helpers.findall3", "helpers.re_find_t") and not isinstance(arg, ast.Name):
                         rep.note(f"R20.5 pattern at {f.qualname} is not foldable: {snippet(arg)}")
+    # patterns compiled once at module level and applied by functions of the slice
+    from ..fold import CompiledPattern
+
+    for mod in {f.module for f in sl}:
+        for name, vals in mod.consts.items():
+            for v_ in vals:
+                cv = ctx.folder.fold(v_, mod)
+                if isinstance(cv, CompiledPattern):
+                    user = next((f for f in sorted(sl, key=lambda x: x.qualname) if f.module is mod and any(isinstance(x, ast.Name) and x.id == name for x in own_nodes(f.node))), None)
+                    if user is not None:
+                        pats.setdefault(cv.pattern, (user, v_))
     # patterns assembled at run time from folded pieces (AddressBase: f"^{self._cmd_addrgroup()} (.+)")
     rep.instance(len(pats))
     rep.floor(15, "distinct foldable regular expressions")
@@ -1246,6 +1277,136 @@ def r20_6(ctx: Ctx, rep: Report) -> None:
     rep.floor(30, "classifier x platform combinations")
 
 
+def _scope_loads(root: ast.AST):
+    """Name loads evaluated in the enclosing function's scope when `root` runs: nested function / lambda / class bodies
+    and the inner parts of comprehensions are their own scopes (only a comprehension's first iterable is ours)."""
+    stack = [root]
+    while stack:
+        x = stack.pop()
+        if isinstance(x, (ast.FunctionDef, ast.AsyncFunctionDef, ast.Lambda, ast.ClassDef)):
+            continue
+        if isinstance(x, (ast.ListComp, ast.SetComp, ast.DictComp, ast.GeneratorExp)):
+            stack.append(x.generators[0].iter)
+            continue
+        if isinstance(x, ast.Name) and isinstance(x.ctx, ast.Load):
+            yield x
+        stack.extend(ast.iter_child_nodes(x))
+
+
+def r20_9(ctx: Ctx, rep: Report, sl: Set[Func]) -> None:
+    """Definite assignment of locals: a local that some path reads before any path binds it raises UnboundLocalError,
+    which no constructor documents (typical: a variable initialised in an if/elif chain that has no branch for 'asa')."""
+    rep.rule("R20.9")
+    n_funcs = 0
+    for f in sorted(sl, key=lambda x: x.qualname):
+        cfg = ctx.cfg(f)
+        a = f.node.args
+        params = {x.arg for x in a.posonlyargs + a.args + a.kwonlyargs} | ({a.vararg.arg} if a.vararg else set()) | ({a.kwarg.arg} if a.kwarg else set())
+        comp_t: Set[int] = set()
+        for c in own_nodes(f.node):
+            if isinstance(c, (ast.ListComp, ast.SetComp, ast.DictComp, ast.GeneratorExp)):
+                for g in c.generators:
+                    comp_t |= {id(x) for x in ast.walk(g.target) if isinstance(x, ast.Name)}
+        local = {x.id for x in own_nodes(f.node) if isinstance(x, ast.Name) and isinstance(x.ctx, ast.Store) and id(x) not in comp_t}
+        local |= {x.name for x in own_nodes(f.node) if isinstance(x, (ast.FunctionDef, ast.ClassDef))}
+        if any(isinstance(x, (ast.Global, ast.Nonlocal)) for x in own_nodes(f.node)):
+            continue
+        n_funcs += 1
+
+        def binds(node: Node) -> Set[str]:
+            out: Set[str] = set()
+            if node.ast is None:
+                return out
+            if node.kind == "for":
+                return {x.id for x in ast.walk(node.ast.target) if isinstance(x, ast.Name)}
+            if node.kind == "except":
+                return {node.ast.name} if getattr(node.ast, "name", None) else out
+            if node.kind in ("stmt", "cond"):
+                if isinstance(node.ast, (ast.FunctionDef, ast.ClassDef)):
+                    return {node.ast.name}
+                for x in ast.walk(node.ast):
+                    if isinstance(x, ast.Name) and isinstance(x.ctx, ast.Store) and id(x) not in comp_t:
+                        out.add(x.id)
+                    if isinstance(x, (ast.Import, ast.ImportFrom)):
+                        out |= {(al.asname or al.name).split(".")[0] for al in x.names}
+                if isinstance(node.ast, ast.With):
+                    pass
+            return out
+
+        # loops over a constant non-empty sequence run their body at least once: what leaves such a loop by exhaustion
+        # has been through the body
+        lenv = ctx.folder.local_env(f)
+        nonempty_loops: Dict[Node, Set[Node]] = {}
+        for nd in cfg.live:
+            if nd.kind == "for":
+                seq = ctx.folder.fold(nd.ast.iter, f.module, lenv)
+                if known(seq) and isinstance(seq, (tuple, list, str, dict, set)) and len(seq) > 0:
+                    bs = [s_ for lab, s_ in nd.succ if lab == "body"]
+                    if bs:
+                        body = {m for m in cfg.reachable(bs[0], labels_avoid=("exc",)) if nd in cfg.reachable(m, labels_avoid=("exc",))}
+                        nonempty_loops[nd] = body
+        OUT: Dict[Node, Optional[Set[str]]] = {nd: None for nd in cfg.live}
+        OUTX: Dict[Node, Optional[Set[str]]] = {nd: None for nd in nonempty_loops}
+
+        def state_on_edge(p: Node, lab: str) -> Optional[Set[str]]:
+            if lab == "exit" and p in nonempty_loops:
+                return OUTX.get(p)
+            return OUT.get(p)
+
+        changed = True
+        while changed:
+            changed = False
+            for nd in cfg.live:
+                ins: Optional[Set[str]] = None
+                for lab, p in nd.pred:
+                    st_ = state_on_edge(p, lab)
+                    if st_ is None:
+                        continue
+                    ins = set(st_) if ins is None else ins & st_
+                if nd is cfg.entry:
+                    ins = set(params)
+                if ins is None:
+                    continue
+                new = ins | binds(nd)
+                if OUT[nd] != new:
+                    OUT[nd] = new
+                    changed = True
+                if nd in nonempty_loops:
+                    back: Optional[Set[str]] = None
+                    for lab, p in nd.pred:
+                        if p in nonempty_loops[nd] and OUT.get(p) is not None:
+                            back = set(OUT[p]) if back is None else back & OUT[p]
+                    if back is not None:
+                        nx = back | binds(nd)
+                        if OUTX[nd] != nx:
+                            OUTX[nd] = nx
+                            changed = True
+        reported: Set[str] = set()
+        for nd in cfg.live:
+            if nd.ast is None or nd.kind not in ("stmt", "cond", "for"):
+                continue
+            ins = None
+            for lab, p in nd.pred:
+                st_ = state_on_edge(p, lab)
+                if st_ is None:
+                    continue
+                ins = set(st_) if ins is None else ins & st_
+            if ins is None:
+                continue
+            root = nd.ast.iter if nd.kind == "for" else nd.ast
+            for x in _scope_loads(root):
+                if x.id in local and x.id not in ins and x.id not in reported:
+                    # a walrus in the same test binds before the later operands read
+                    if nd.kind == "cond" and any(isinstance(w, ast.NamedExpr) and isinstance(w.target, ast.Name) and w.target.id == x.id for w in ast.walk(nd.ast)):
+                        continue
+                    reported.add(x.id)
+                    rep.instance()
+                    rep.violation(f.qualname, f"`{x.id}` read at line {getattr(x, 'lineno', '?')}", f"the local `{x.id}` is read on a path on which nothing has bound it: UnboundLocalError (not a documented error) escapes", where(f, x), inp="an object built with platform='asa' reaching this statement")
+    rep.instance(n_funcs)
+    rep.ok("locals of the constructors' slice", f"{n_funcs} functions: every local is bound on every path before it is read", nontrivial=True)
+    rep.floor(50, "functions examined for definite assignment")
+
+
 def run(ctx: Ctx, rep: Report, tier: str) -> None:
     entries, sl = slice_funcs(ctx)
     r20_1a(ctx, rep, entries)
@@ -1254,6 +1415,7 @@ def run(ctx: Ctx, rep: Report, tier: str) -> None:
     r20_4(ctx, rep, sl)
     r20_5(ctx, rep, sl)
     r20_6(ctx, rep)
+    r20_9(ctx, rep, sl)
     # R20.7: what a constructor stores renders text it accepts again — structural parts decided elsewhere
     from .c06 import normaliser_fixed_point
     from .c08 import validated_is_returned
